@@ -425,10 +425,19 @@ func compat(got, exp *hs.Type, o copts) bool {
 			return false
 		}
 		for i, ep := range exp.Params {
+			// arguments are passed by position: a parameter of the expected name counts only at
+			// the expected position (where names are ignored, the position alone decides)
 			var gp *hs.Field
 			for j := range got.Params {
 				if got.Params[j].Name == ep.Name {
+					if j != i {
+						if o.ignoreNames {
+							break
+						}
+						return false
+					}
 					gp = &got.Params[j]
+					break
 				}
 			}
 			if gp == nil {
